@@ -337,6 +337,69 @@ def judgeObs (stores : List String) (cmap : List (String × String)) (prev : Opt
         | none => pure ()
   return vio
 
+-- ---------------------------------------------------------------- part-store faults in the trace
+
+def isFaultTok (t : String) : Bool :=
+  t.startsWith "fstep=" || t.startsWith "fkind=" || t.startsWith "fclose=" || t.startsWith "fired="
+
+/-- Fold `rop fault …` / `rres ok` / `op …` / `res …` / `rfault fired=…` into the operation's lines with
+an annotated result: `res … fstep=<j> fkind=<kind> fclose=<0|1> fired=<0|1>`. -/
+def normalize (lines : List String) : List String := Id.run do
+  let mut out : Array String := #[]
+  let mut spec : Option String := none
+  let mut dropRres := false
+  let mut held : Option String := none
+  for l in lines do
+    if l.startsWith "rop fault" then
+      let t := tokens l
+      spec := some s!"fstep={kvOf t "step"} fkind={kvOf t "kind"} fclose={kvOf t "close"}"
+      dropRres := true
+    else if dropRres && l.startsWith "rres" then dropRres := false
+    else if spec.isSome && l.startsWith "res " then held := some l
+    else if l.startsWith "rfault" then
+      match held, spec with
+      | some r, some sp => out := out.push s!"{r} {sp} fired={kvOf (tokens l) "fired"}"
+      | _, _ => pure ()
+      held := none
+      spec := none
+    else out := out.push l
+  return out.toList
+
+/-- The trace as the S3-level judge sees it: an operation that failed because the armed fault
+struck is left out (the object model knows no faults: a failed call changes nothing there), every
+other faulted operation appears as an ordinary one. -/
+def forS3 (lines : List String) : List String := Id.run do
+  let mut out : Array String := #[]
+  let mut pendingOp : Option String := none
+  for l in lines do
+    if l.startsWith "op " then
+      match pendingOp with
+      | some o => out := out.push o
+      | none => pure ()
+      pendingOp := some l
+    else if l.startsWith "res " then
+      let t := tokens l
+      if kvOf t "fired" == "1" && l.startsWith "res err" then
+        pendingOp := none
+      else
+        match pendingOp with
+        | some o => out := out.push o
+        | none => pure ()
+        pendingOp := none
+        out := out.push (String.intercalate " " (t.filter fun x => !isFaultTok x))
+    else out := out.push l
+  match pendingOp with
+  | some o => out := out.push o
+  | none => pure ()
+  return out.toList
+
+def faultOf (t : List String) : Option ClassRouting.Fault :=
+  let k := kvOf t "fkind"
+  if k == "~" then none else
+  let kind : ClassRouting.FKind := match k with
+    | "open" => .open | "read" => .read | "close" => .close | _ => .put
+  some { step := (kvOf t "fstep").toNat!, kind := kind, closeToo := kvOf t "fclose" == "1" }
+
 -- ---------------------------------------------------------------- the case loop
 
 def judgeRouting (_k : Nat) (lines : List String) : Verdict := Id.run do
@@ -379,14 +442,43 @@ def judgeRouting (_k : Nat) (lines : List String) : Verdict := Id.run do
           let implOk := l.startsWith "res ok"
           let modelOk := match out with | .err _ => false | _ => true
           let t := tokens o
+          let flt := faultOf (tokens l)
+          if flt.isSome then
+            stats := addStats stats [("rt_fault_armed", 1), (if kvOf (tokens l) "fired" == "1" then "rt_fault_fired" else "rt_fault_not_reached", 1),
+              (if implOk then "rt_fault_op_ok" else "rt_fault_op_err", 1)]
           if implOk then
             match op with
             | .base (.transition b k cls _) =>
               pend := { kind := "trans", b := b, k := k, vid := kvOf t "vid", cls := cls }
             | .base (.del ..) | .base (.abort ..) => pend := { kind := "keep" }
             | _ => pure ()
+          else if flt.isSome then pend := { kind := "keep" }   -- a FAILED faulted call must leave every version as it was
           if tie then
-            if implOk != modelOk then
+            if flt.isSome && modelOk then
+              -- the routing model decides whether the fault plan aborts the call
+              match derive contents st st' op out with
+              | .error e => div := div ++ [s!"route:op{idx}:cannot-resolve:{e}"]; tie := false
+              | .ok (cs1, rops) =>
+                let mut rs1 := rs
+                let mut aborted := false
+                for rop in rops do
+                  match ClassRouting.applyF rs1 rop flt with
+                  | some x => rs1 := x
+                  | none => aborted := true
+                if aborted then
+                  if implOk then
+                    div := div ++ [s!"route:op{idx}[{t.getD 1 "?"}]:fault({kvOf (tokens l) "fstep"},{kvOf (tokens l) "fkind"}):model-aborts-the-call,implementation-reports-success"]
+                    tie := false
+                else if !implOk then
+                  div := div ++ [s!"route:op{idx}[{t.getD 1 "?"}]:fault({kvOf (tokens l) "fstep"},{kvOf (tokens l) "fkind"}):model-succeeds,implementation-fails"]
+                  tie := false
+                else
+                  rs := rs1
+                  contents := cs1
+                  match op with
+                  | .base (.transition ..) => stats := addStats stats [("rt_transition_ok", 1)]
+                  | _ => pure ()
+            else if implOk != modelOk then
               tie := false     -- the object model and the implementation disagree: reported by the S3-level tie
             else if implOk then
               match derive contents st st' op out with
@@ -408,7 +500,8 @@ def judgeRouting (_k : Nat) (lines : List String) : Verdict := Id.run do
                   | none =>
                     div := div ++ [s!"route:op{idx}[{t.getD 1 "?"}]:routing-model-fails-where-the-implementation-succeeds"]
                     tie := false
-          st := st'
+          -- a call that failed because the fault struck changes nothing in the object model either
+          if !(flt.isSome && modelOk && !implOk) then st := st'
         idx := idx + 1
     else if l.startsWith "rres " then
       match curOp with
